@@ -226,10 +226,19 @@ def r07b(model, ctx):
     # --- the uniqueness gate is only an assert: names must be unique by construction
     cm = model.cls(f"{RTLIL}::Module")
     for meth in ("wire", "cell", "memory", "process"):
-        f = model.class_methods(cm)[meth]
-        first = f.body[0]
-        ok = isinstance(first, ast.Assign) and unparse(first.value) == "self._name(name)" and \
-            any(unparse(s).startswith("self.contents[name] = res =") or "self.contents[name]" in unparse(s) for s in f.body)
+        # path summary with Module's own helpers expanded: on every path the key stored into self.contents is the
+        # result of self._name(name)
+        from ..engine import refsem
+        table = refsem.inline_table(model, RTLIL, "Module", exclude=(meth, "_name"))
+        f, paths = refsem.method_paths(model, f"{RTLIL}::Module.{meth}", inline=table)
+        stores = []
+        for p in paths:
+            for e in p.effects:
+                if isinstance(e, ast.Assign):
+                    for t in e.targets:
+                        if isinstance(t, ast.Subscript) and unparse(t.value) == "self.contents":
+                            stores.append(unparse(t.slice))
+        ok = bool(stores) and all(k == "self._name(name)" for k in stores)
         ctx.check(ok, R, f"rtlil.Module.{meth}", "registers through _name() before inserting into contents",
                   f"Module.{meth} must pass its name through self._name() before inserting into self.contents",
                   f"{RTLIL}:{f.lineno}")
